@@ -316,3 +316,122 @@ def check_c11(tier, seed, log=print):
                              samples=samples))
     run.assumptions += ['partial by nature: the semantic content lives in regex-syntax group scoping; the quantifier over definitions is sampled, each sampled equivalence is decided for all strings']
     return run.finish()
+
+
+# ------------------------------------------------------------------------------------------------
+ERRMAP = [
+    ('Unexpected token in attribute', 'unexpected'),
+    ('Expected a named argument at this position', 'positional'),
+    ('Resetting previously set priority', 'dupprio'),
+    ('Callback has been already set', 'dupcb'),
+    ('Previous callback set here', None),
+    ('Resetting previously set allow_greedy', 'dupgreedy'),
+    ('Unknown nested attribute', 'unknown'),
+    ('Expected: priority = <integer>', 'form-priority'),
+    ('Expected: callback = ...', 'form-callback'),
+    ('Expected: ignore(<flag>, ...)', 'form-ignore'),
+    ('Expected: allow_greedy = ...', 'form-allow_greedy'),
+]
+
+
+def attr_err_classes(errs):
+    out = []
+    other = []
+    for e in errs:
+        for pat, cls in ERRMAP:
+            if pat in e:
+                if cls:
+                    out.append(cls)
+                break
+        else:
+            other.append(e)
+    return sorted(out), other
+
+
+def sig_of(cap):
+    """what a permutation must not change: verdict, diagnostics, leaves (priority, kind, callback, pattern HIR), code"""
+    if cap is None:
+        return None
+    return (cap.verdict, tuple(sorted(cap.errs)), tuple(cap.leaves), tuple(l for l in cap.dump if l.startswith('HIR')), cap.code)
+
+
+def lexer_sig(cap):
+    """order-insensitive signature for #[logos(...)] item permutations (leaf numbering may change)"""
+    if cap is None:
+        return None
+    hirs = {}
+    for l in cap.dump:
+        if l.startswith('HIR'):
+            t = l.split(' ', 2)
+            hirs[int(t[1])] = t[2] if len(t) > 2 else ''
+    leaves = sorted((p, k, cb, nm, hirs.get(i, '')) for i, (p, k, cb, nm) in enumerate(cap.leaves))
+    return (cap.verdict, tuple(sorted(cap.errs)), tuple(leaves), cap.utf8)
+
+
+def check_c18(tier, seed, log=print):
+    run = start('C18', tier, seed)
+    R = random.Random(seed)
+    cases = F.fam_c18(R, 15 if tier == 'quick' else 15) + F.fam_c18_logos(R, 25 if tier == 'quick' else 200)
+    caps = P.run_capture([c['src'] for c in cases])
+    # model answers for the argument lists
+    lines = ['CASE m']
+    for i, c in enumerate(cases):
+        if 'tokens' in c['meta']:
+            lines.append('Q ATTR 1 ' + ' '.join(c['meta']['tokens']))
+    ans = P.run_lean(lines, nproc=1)
+    groups = {}
+    n = 0
+    nontriv = set()
+    samples = []
+    tie_dis = 0
+    for i, c in enumerate(cases):
+        cap, m = caps[i], c['meta']
+        if cap is None:
+            continue
+        n += 1
+        if m.get('group') is not None:
+            groups.setdefault(m['group'], []).append(i)
+        if 'tokens' in m:
+            mv = ans.get('m ATTR 1 ' + ' '.join(m['tokens']), '')
+            fields = dict(x.split('=', 1) for x in mv.split(' ')) if mv else {}
+            model_errs = sorted(x for x in fields.get('errs', '').split(',') if x)
+            real_errs, other = attr_err_classes(cap.errs)
+            # callback-shaped failures of parse_callback are outside the tokenizer model
+            other = [e for e in other if 'greedy' not in e and 'Inline callbacks' not in e and 'Not a valid callback' not in e and 'unsigned integer' not in e and '`true` or `false`' not in e]
+            if cap.verdict == 'PANIC':
+                continue   # C19's business
+            obs = None
+            if cap.leaves and m['leaf'] < len(cap.leaves):
+                lf = cap.leaves[m['leaf']]
+                obs = dict(cb=bool(lf[2]))
+            ok = (model_errs == real_errs)
+            if ok and obs is not None and not model_errs:
+                ok = (str(obs['cb']).lower() == fields.get('cb'))
+            if not ok:
+                tie_dis += 1
+                run.violation('tie', dict(definition=c['src'], model=mv, real_error_classes=real_errs, real_errors=cap.errs, observed=obs,
+                                          what='the tokenizer/parse_definition model (Attr.parseArgs, repaired rule) and the real parser disagree on this argument list',
+                                          correspondence='T-D AttributeParser vs LogosModel.Attr'), no_input=True, key='attrtie|' + c['src'])
+    for g, idxs in groups.items():
+        logos_level = cases[idxs[0]]['family'] == 'c18-logos'
+        sigf = lexer_sig if logos_level else sig_of
+        base = sigf(caps[idxs[0]])
+        if len(idxs) > 2:
+            nontriv.add(g)
+        for j in idxs[1:]:
+            if sigf(caps[j]) != base:
+                a, b = caps[idxs[0]], caps[j]
+                run.violation('order-dependent', dict(canonical=cases[idxs[0]]['src'], permuted=cases[j]['src'],
+                                                      canonical_result=dict(verdict=a.verdict, errors=a.errs, leaves=a.leaves),
+                                                      permuted_result=dict(verdict=b.verdict, errors=b.errs, leaves=b.leaves),
+                                                      what='the same arguments in a different order give a different definition / verdict'),
+                              key='order|' + cases[j]['src'])
+                break
+        if len(samples) < 4 and len(idxs) > 2:
+            samples.append(dict(group=[cases[j]['src'].split('\n')[-3:] for j in idxs[:3]]))
+    run.coverage.update(dict(evaluations=n, distinct_nontrivial=len(nontriv), permutation_groups=len(groups),
+                             rule='all permutations (with and without trailing comma, with and without a positional callback) of every subset of the named arguments, for #[token], #[regex] and skip(...); '
+                                  'dependency-respecting permutations of #[logos(...)] items; every permutation must give the verdict, diagnostics, leaves and generated code of the first one; '
+                                  'the abstract token lists are also run through the Lean model Attr.parseArgs and compared with the real parser (error classes, callback presence); non-trivial = group with >= 3 orders',
+                             samples=samples, model_vs_impl_disagreements=tie_dis))
+    return run.finish()
